@@ -83,7 +83,9 @@ func (x *Exec) libModel(st *State, in ssa.Instruction, callee *ssa.Function, nam
 		return ret(leaf(rt, fmt.Sprintf("(timeofunix %s %s)", args[0].Term, args[1].Term)))
 	case "errors.New", "fmt.Errorf", "github.com/pkg/errors.New", "github.com/pkg/errors.Errorf", "github.com/pkg/errors.Wrap", "github.com/pkg/errors.Wrapf":
 		return ret(x.errValue(st, rt, "new"))
-	case "fmt.Sprintf", "fmt.Sprint", "fmt.Sprintln":
+	case "fmt.Sprintf":
+		return ret(x.sprintfModel(st, rt, args))
+	case "fmt.Sprint", "fmt.Sprintln":
 		v := x.freshValue(st, rt, "sprintf")
 		return ret(v)
 	case "fmt.Println", "fmt.Printf", "fmt.Print", "fmt.Fprintf", "fmt.Fprintln":
@@ -120,7 +122,7 @@ func (x *Exec) libModel(st *State, in ssa.Instruction, callee *ssa.Function, nam
 	case "sync/atomic.AddInt64", "sync/atomic.AddInt32", "sync/atomic.AddUint64", "sync/atomic.AddUint32":
 		if args[0].K == KPtr {
 			old := x.load(st, args[0].P, rt)
-			nv := leaf(rt, fmt.Sprintf("(+ %s %s)", old.Term, args[1].Term))
+			nv := x.arith(st, rt, fmt.Sprintf("(+ %s %s)", old.Term, args[1].Term), "add")
 			x.store(st, args[0].P, nv)
 			return ret(nv)
 		}
@@ -225,6 +227,9 @@ func (x *Exec) havocReachable(st *State, a *Value) {
 
 // ifaceModel: models of a few interface methods.
 func (x *Exec) ifaceModel(st *State, in ssa.Instruction, c *ssa.CallCommon, full string, recv *Value, args []*Value, k Cont) bool {
+	if x.dbModel(st, full, recv, args, k) {
+		return true
+	}
 	switch full {
 	case "(error).Error":
 		k(st, []*Value{x.freshValue(st, types.Typ[types.String], "errstr")})
